@@ -48,6 +48,7 @@ type c16Case struct {
 	Crash  map[int]c16Crash
 	RS     *resolved.Schema // filled by the parent after phase 1 showed that resolution terminates
 	Divers map[string]bool
+	Budget *c16CrashBudget // shared by the cases of one family of tiny schemas (c16_xns.go); nil = none
 }
 
 type capBuf struct {
@@ -182,10 +183,25 @@ func c16RunOps(proc **c16Proc, cs *c16Case, ops []c16Op, attribute bool) error {
 	return c16RunOpsStack(proc, cs, ops, attribute, false)
 }
 
+// c16Global: crash budget of the whole run (families with a budget of their own excepted). On the unchanged tree a
+// run sees one or two operations that do not return (the known exponential-inlining schemas). When a defect makes a
+// whole class of operations overflow the stack (every `in` scope over a cyclic entity hierarchy, say), each costs a
+// worker process and seconds of CPU at the 64 MiB cap, thousands of them would outlast the check's time limit and the
+// run would end as `harness-crash` WITHOUT a failing input. So: after c16GlobalSmall operations did not return, workers
+// start with the 8 MiB cap and the attribution re-run is tried once; after c16GlobalDrop, the remaining operations of a
+// case whose operation just crashed are not executed (reported in the distribution as skip:dropped-after-crash-budget).
+// By then the run has that many findings with schema + operation as replay; it fails either way.
+var c16Global = &c16CrashBudget{limit: c16GlobalSmall}
+
+const (
+	c16GlobalSmall = 6
+	c16GlobalDrop  = 24
+)
+
 func c16RunOpsStack(proc **c16Proc, cs *c16Case, ops []c16Op, attribute, smallStack bool) error {
 	for len(ops) > 0 {
 		if *proc == nil {
-			p, err := c16Start(smallStack)
+			p, err := c16Start(smallStack || cs.Budget.spent() || c16Global.spent())
 			if err != nil {
 				return err
 			}
@@ -266,7 +282,11 @@ func c16RunOpsStack(proc **c16Proc, cs *c16Case, ops []c16Op, attribute, smallSt
 			// recursion that needs more than the CPU budget to fill 64 MiB (loaded machine) then shows as the overflow it is.
 			// up to three attempts: a crash that is a property of the input reproduces at once; a worker lost to the
 			// environment (OOM killer on a loaded machine) must not turn into an unattributed crash
-			for attempt := 0; attempt < 3 && !cr.Confirmed; attempt++ {
+			attempts := 3
+			if c16Global.spent() {
+				attempts = 1
+			}
+			for attempt := 0; attempt < attempts && !cr.Confirmed; attempt++ {
 				sub := &c16Case{ID: cs.ID, Tag: cs.Tag, Enc: cs.Enc, Res: map[int]string{}, Crash: map[int]c16Crash{}}
 				var sp *c16Proc
 				if err := c16RunOpsStack(&sp, sub, []c16Op{k}, false, c16ConfirmSmallStack || crashKind == "timeout"); err != nil {
@@ -299,7 +319,17 @@ func c16RunOpsStack(proc **c16Proc, cs *c16Case, ops []c16Op, attribute, smallSt
 			continue
 		}
 		cs.Crash[k.I] = cr
+		cs.Budget.note()
 		ops = ops[next+1:]
+		if cs.Budget == nil && attribute {
+			c16Global.note()
+			if c16Global.count() >= c16GlobalDrop {
+				for _, o := range ops {
+					cs.Res[o.I] = "skip\tdropped-after-crash-budget"
+				}
+				ops = nil
+			}
+		}
 	}
 	return nil
 }
@@ -1024,7 +1054,7 @@ func truncC16(s string, n int) string {
 // ---- the check ----
 
 func runC16(c *vh.Ctx) {
-	c.Res.Rule = "schemas: ALL memberOf graphs on <=3 entity types (bare; <=2 namespaced), ALL common-type reference graphs on <=3 names (bare; namespaced unqualified / qualified: all on <=2 names, every 4th on 3 in the quick tier, all in thorough), ALL action-parent graphs on <=3 actions (unqualified bare; 4 more reference styles sampled likewise), a schema matching the world of the typed random policy generator; hand-written specials (undefined references, RFC-70 shadowing, resolution order, primitive-like names, deep nesting, 300-long chains), random schemas; Resolve of each in a subprocess worker (64 MiB stack, 5 s); for each resolved schema: validate.Policy (strict+permissive) on scope/condition forms using in / is..in / == between every ordered type pair and every action pair, JSON-decoded policies whose literals are sets/records/extension values, typed random policies (all node kinds) against the world schema, builder-made literal extension values; Entity/Entities/Request on conforming and junk data; the three hierarchy walks through hooks on every pair, compared with independent predictors and with the Lean model. distinct = distinct (schema, operation); non-trivial = operation on a schema with at least one cycle-free or cyclic edge"
+	c.Res.Rule = "schemas: ALL memberOf graphs on <=3 entity types (bare; <=2 namespaced), ALL common-type reference graphs on <=3 names (bare; namespaced unqualified / qualified: all on <=2 names, every 4th on 3 in the quick tier, all in thorough), ALL action-parent graphs on <=3 actions (unqualified bare; 4 more reference styles sampled likewise), ALL cross-namespace common-type graphs (<=3 names, each undeclared / a common type of the empty namespace, of NS or of both / an entity type of either; bodies Long or a reference X / NS::X, bare, Set<..> or {f: ..}; use site in NS or outside, unqualified or qualified: all on <=2 names, every 13th 3-name graph in the quick tier, all in thorough) with accept/reject and the inlined types decided by an independent reference resolver, a schema matching the world of the typed random policy generator; hand-written specials (undefined references, RFC-70 shadowing, resolution order, primitive-like names, deep nesting, 300-long chains), random schemas; Resolve of each in a subprocess worker (64 MiB stack, 5 s); for each resolved schema: validate.Policy (strict+permissive) on scope/condition forms using in / is..in / == between every ordered type pair and every action pair, JSON-decoded policies whose literals are sets/records/extension values, typed random policies (all node kinds) against the world schema, builder-made literal extension values; Entity/Entities/Request on conforming and junk data; the three hierarchy walks through hooks on every pair, compared with independent predictors and with the Lean model. distinct = distinct (schema, operation); non-trivial = operation on a schema with at least one cycle-free or cyclic edge"
 	var scs []vh.SchemaCase
 	scs = append(scs, vh.SpecialSchemas()...)
 	scs = append(scs, vh.EntityGraphSchemas(3, false)...)
@@ -1068,6 +1098,16 @@ func runC16(c *vh.Ctx) {
 	scs = append(scs, vh.SchemaCase{Tag: "doubling-12", S: vh.DoublingSchema(12)})
 	// 26 chained record types, each mentioning the next twice: Resolve inlines 2^26 records (minutes, gigabytes)
 	scs = append(scs, vh.SchemaCase{Tag: "doubling-26", S: vh.DoublingSchema(26)})
+	// cross-namespace common-type reference graphs (vh/gen_c16b.go): all on <= 2 names; on 3 names every 13th in the quick
+	// tier (13 is coprime to the 4 use sites; the offset comes from the seed), all in thorough
+	xnsStride := c.N(13, 1)
+	xnsOffset := 0
+	if xnsStride > 1 {
+		xnsOffset = c.Rng.Intn(xnsStride)
+	}
+	if os.Getenv("VH_C16_NOXNS") == "" { // measurement knob only: the cost of the family = run with and without
+		scs = append(scs, vh.C16XnsSchemas(xnsStride, xnsOffset)...)
+	}
 
 	cleanup, err := c16PrepareWorkerExe()
 	defer cleanup()
@@ -1079,29 +1119,53 @@ func runC16(c *vh.Ctx) {
 	t0 := time.Now()
 	c16ConfirmSmallStack = true // the first run of every operation uses the 64 MiB cap; the attribution re-run of a crashed one uses 8 MiB
 	cases := make([]*c16Case, len(scs))
-	var batches []*c16Case
+	var batches, xnsBatches []*c16Case
+	batchOf := map[*c16Case][]*c16Case{} // batch -> its cases, in operation order
+	// the tiny schemas of the cross-namespace family travel in batches of their own, run after the others with a crash
+	// budget: should Resolve overflow the stack on many of them, the first few overflows fill the 64 MiB cap (seconds of
+	// CPU each), later workers get the 8 MiB cap (these schemas need a few dozen frames)
+	xnsBudget := &c16CrashBudget{limit: 4}
 	for i, sc := range scs {
 		cases[i] = &c16Case{ID: i, Tag: sc.Tag, S: sc.S, Enc: vh.EncSchema(sc.S), Ops: []c16Op{{I: 0, K: "resolve"}}, Res: map[int]string{}, Crash: map[int]c16Crash{}, Divers: map[string]bool{}}
-		if i%64 == 0 { // many schemas per message: a round trip per schema is slow on a loaded machine
-			batches = append(batches, &c16Case{ID: 1_000_000 + len(batches), Tag: fmt.Sprintf("resolve-batch-%d", len(batches)), Res: map[int]string{}, Crash: map[int]c16Crash{}})
+		list := &batches
+		var budget *c16CrashBudget
+		if strings.HasPrefix(sc.Tag, "xns-") {
+			list, budget = &xnsBatches, xnsBudget
 		}
-		bt := batches[len(batches)-1]
+		if n := len(*list); n == 0 || len((*list)[n-1].Ops) >= 64 { // many schemas per message: a round trip per schema is slow on a loaded machine
+			nb := len(batches) + len(xnsBatches)
+			*list = append(*list, &c16Case{ID: 1_000_000 + nb, Tag: fmt.Sprintf("resolve-batch-%d", nb), Res: map[int]string{}, Crash: map[int]c16Crash{}, Budget: budget})
+		}
+		bt := (*list)[len(*list)-1]
 		bt.Ops = append(bt.Ops, c16Op{I: len(bt.Ops), K: "resolve", S: cases[i].Enc})
+		batchOf[bt] = append(batchOf[bt], cases[i])
 	}
-	if err := c16RunAll(batches); err != nil {
-		c.Report(vh.Finding{Class: "worker-failure", What: err.Error(), Check: "oracle", Op: "resolve", NoInput: true})
-		return
-	}
-	for bi, bt := range batches {
-		for k := range bt.Ops {
-			cs := cases[bi*64+k]
-			if r, ok := bt.Res[k]; ok {
-				cs.Res[0] = r
-			}
-			if cr, ok := bt.Crash[k]; ok {
-				cs.Crash[0] = cr
+	for gi, group := range [][]*c16Case{batches, xnsBatches} {
+		tg := time.Now()
+		if err := c16RunAll(group); err != nil {
+			c.Report(vh.Finding{Class: "worker-failure", What: err.Error(), Check: "oracle", Op: "resolve", NoInput: true})
+			return
+		}
+		for _, bt := range group {
+			for k, cs := range batchOf[bt] {
+				if r, ok := bt.Res[k]; ok {
+					cs.Res[0] = r
+				}
+				if cr, ok := bt.Crash[k]; ok {
+					cs.Crash[0] = cr
+				}
 			}
 		}
+		if gi == 1 {
+			n := 0
+			for _, bt := range group {
+				n += len(bt.Ops)
+			}
+			c.Res.Notes = append(c.Res.Notes, fmt.Sprintf("phase 1, cross-namespace family alone (%d schemas, %d batches): %.1fs", n, len(group), time.Since(tg).Seconds()))
+		}
+	}
+	if xnsBudget.spent() {
+		c.Res.Notes = append(c.Res.Notes, fmt.Sprintf("cross-namespace family: %d operations did not return; after the first %d the workers ran with an 8 MiB stack cap", xnsBudget.count(), xnsBudget.limit))
 	}
 	c.Res.Notes = append(c.Res.Notes, fmt.Sprintf("phase 1 (resolve, %d schemas): %.1fs", len(cases), time.Since(t0).Seconds()))
 	b := &vh.Batch{}
@@ -1111,7 +1175,7 @@ func runC16(c *vh.Ctx) {
 		c.Res.OracleChecks++
 		kind := strings.SplitN(cs.Tag, "-", 2)[0]
 		if cr, ok := cs.Crash[0]; ok {
-			cls := c16ClassOfCrash(cs.Ops[0], cr)
+			cls := c16ClassOfResolveCrash(cs, cr)
 			if cr.Kind == "timeout" && cr.Confirmed && strings.HasPrefix(cs.Tag, "doubling-") {
 				cls = "common-type-exponential-inlining" // narrow: the generated doubling chain only
 			}
@@ -1119,11 +1183,40 @@ func runC16(c *vh.Ctx) {
 				b.Add("schema-resolve", map[string]any{"schema": cs.Enc}, "diverges", cs.Tag)
 			}
 			c.Dist("resolve-crash:" + cls)
+			crashIn := map[string]any{"schema": cs.Enc, "tag": cs.Tag}
+			expected := "a resolved schema or an error"
+			if kind == "xns" { // tiny schemas: the replay carries the Cedar text and the reference's answer
+				if t, err := schema.NewSchemaFromAST(cs.S).MarshalCedar(); err == nil {
+					crashIn["schema_text"] = string(t)
+				}
+				if ref := c16RefResolve(cs.S); ref.OK {
+					expected = "ok " + ref.Dump
+				} else {
+					expected = "err (" + ref.Why + ")"
+				}
+			}
 			c.Report(vh.Finding{Class: cls, What: fmt.Sprintf("Resolve did not return on schema %s: %s %s", cs.Tag, cr.Kind, cr.Head), Check: "oracle", Op: "resolve",
-				Input: map[string]any{"schema": cs.Enc, "tag": cs.Tag}, Expected: "a resolved schema or an error", Actual: cr.Kind})
+				Input: crashIn, Expected: expected, Actual: cr.Kind})
 			continue
 		}
 		res := cs.Res[0]
+		if kind == "xns" && strings.HasPrefix(res, "resolve\t") {
+			// the independent reference resolver decides accept/reject and the inlined types
+			c.Res.OracleChecks++
+			ref := c16RefResolve(cs.S)
+			c.Dist("xns-reference:" + map[bool]string{true: "ok", false: "reject-" + ref.Why}[ref.OK])
+			if ref.UnusedUndefined {
+				c.Dist("xns:undefined-but-unused")
+			}
+			if cls, what := c16CheckXns(ref, strings.TrimPrefix(res, "resolve\t")); cls != "" {
+				in := map[string]any{"schema": cs.Enc, "tag": cs.Tag}
+				if t, err := schema.NewSchemaFromAST(cs.S).MarshalCedar(); err == nil {
+					in["schema_text"] = string(t)
+				}
+				c.Report(vh.Finding{Class: cls, What: fmt.Sprintf("schema %s: %s", cs.Tag, what), Check: "oracle", Op: "resolve", Input: in,
+					Expected: map[bool]string{true: "ok " + ref.Dump, false: "err (" + ref.Why + ")"}[ref.OK], Actual: strings.TrimPrefix(res, "resolve\t")})
+			}
+		}
 		switch {
 		case strings.HasPrefix(res, "panic"):
 			c.Report(vh.Finding{Class: c16ClassOfPanic(cs.Ops[0], res), What: fmt.Sprintf("Resolve panicked on schema %s: %s", cs.Tag, res), Check: "oracle", Op: "resolve",
@@ -1191,6 +1284,8 @@ func runC16(c *vh.Ctx) {
 			if cs.ID%10 == 0 {
 				gen.dataOps(cs)
 			}
+		case "xns":
+			// resolution only: the family has no actions, and its entity hierarchies are covered by the entgraph family
 		case "special":
 			gen.walkOps(cs)
 			gen.policyOps(cs, 2)
@@ -1245,6 +1340,9 @@ func runC16(c *vh.Ctx) {
 		return
 	}
 	c.Res.Notes = append(c.Res.Notes, fmt.Sprintf("phase 2 (%d resolved schemas, %d operations, %d/%d possibly-divergent executed, stride %d): %.1fs", len(phase2), totalOps, executedFlagged, flagged, stride, time.Since(t1).Seconds()))
+	if c16Global.spent() {
+		c.Res.Notes = append(c.Res.Notes, fmt.Sprintf("crash budget: %d operations did not return; after the first %d the workers ran with an 8 MiB stack cap, after %d the remaining operations of a case were dropped once one of them crashed", c16Global.count(), c16GlobalSmall, c16GlobalDrop))
+	}
 	// when every sampled flagged operation returned (the visited set is in place) the remaining ones are cheap: run them all.
 	// When one of them crashed (the defect is back) the rest stays unexecuted: each would cost a process and seconds of CPU.
 	sampleCrashed := false
@@ -1287,6 +1385,10 @@ func runC16(c *vh.Ctx) {
 			}
 			cr, crashed := cs.Crash[op.I]
 			res := cs.Res[op.I]
+			if !crashed && res == "skip\tdropped-after-crash-budget" { // not executed (c16Global): no observation to compare
+				c.Dist("skip:dropped-after-crash-budget")
+				continue
+			}
 			what := func() string {
 				return fmt.Sprintf("%s %s %s%s on schema %s", op.K, op.Mode, truncC16(op.Src, 200), op.A+" "+op.B, cs.Tag)
 			}
